@@ -29,6 +29,8 @@ func cbBuild(name string) string { return "(*" + pkCB + ".Builder)." + name }
 
 func runC21(c *Ctx) {
 	w := c.W
+	timeZoneRules(c)
+	c21Extras(c)
 	// ---- optional readers: at most one consuming call on the receiver
 	consuming := map[string]bool{}
 	for _, n := range []string{"read", "Skip", "ReadUint8", "ReadUint16", "ReadUint24", "ReadUint32", "readUnsigned", "readLengthPrefixed", "ReadUint8LengthPrefixed", "ReadUint16LengthPrefixed",
